@@ -9,7 +9,8 @@ the specification is plain navigation `navigate : JVal → List Step → Option 
 whose index / member name is held by a scalar or a fold iterator — into steps.
 
 All theorems quantify over every store of scalars, every JSON value and every path.
-* `EnvTotal sc` (needed only by the "never panics" statements): looking a name up in the store and peeking
+* `EnvTotal sc` (needed only by the "never panics" statements): looking a name up in the store (no panic, no scalar/iterator
+  name clash — `IterableShadowing`, uncatchable, since /repo 66d8bd2) and peeking
   at the element of a fold iterator do not panic.
 * `a ≠ .error`: `ValueAccessor::Error` is never in a parsed lens (`parse_lambda` returns `Err` when its error
   list is non-empty); the applier's `unreachable!` on it is a panic in the model.
@@ -74,7 +75,7 @@ theorem C24_scalar_failure_is_catchable (sc : Scalars) (henv : EnvTotal sc) (v :
                 cases hg : sc.getValue s with
                 | error e' =>
                   simp only [hg] at ha; injection ha with ha; subst ha
-                  rcases getValue_error sc s _ hg with h3 | h3 <;> cases h3
+                  rcases getValue_error sc s _ hg with h3 | h3 | h3 <;> cases h3
                 | panic p => simp [hg] at ha
                 | ok ref =>
                   simp only [hg, selectByScalar_eq] at ha
